@@ -155,6 +155,12 @@ def _worker(mod, tier, k, nworkers, budget, conn):
         agg["err"] = traceback.format_exc()
     agg["wall"] = time.time() - t0
     try:
+        # scratch files of this worker (SQLite maps, pickles): forked workers do not run atexit handlers
+        from mc import maps as _maps
+        _maps.cleanup()
+    except Exception:  # noqa
+        pass
+    try:
         conn.send(agg)
     finally:
         conn.close()
